@@ -666,6 +666,10 @@ def _items(t):
             # an empty switch block is an (empty) list of block items, not None:
             # the regrouping always produces a list
             b = N("Compound", _switch_block(body[1]))
+        elif body[0] == "pp":
+            # the Compound([pragmas..., stmt]) that stands for a pragma-prefixed
+            # body *is* the switch body: its items are regrouped like any block's
+            b = N("Compound", _switch_block(body[1] + (body[2],)))
         else:
             b = _one(body)
         return (N("Switch", ID(t[1]), b),)
